@@ -51,6 +51,12 @@ pub fn gen_build_case(rng: &mut Rng, tier: Tier) -> BuiltCase {
       let ext = from.rsplit('.').next().unwrap_or("ts").to_string();
       let to = if rng.chance(50) { rng.pick(&all).clone() } else { format!("https://h.test/final{}.{}", rng.below(3), ext) };
       if to != from {
+        // a fresh final specifier serves the same module when asked directly (a coherent loader);
+        // an existing one keeps its own answer
+        if !world.entries.contains_key(&to) {
+          let e = world.entries.get(&from).cloned().unwrap();
+          world.entries.insert(to.clone(), e);
+        }
         world.final_specifiers.insert(from, to);
       }
     }
